@@ -977,18 +977,14 @@ Theorem C16_zsh_space_in_name_refuted :
   exists s, zsh_script bl0 zs_root cd0 = Some s /\ ~ sublist [45; 120; 91] s.
 Proof. exact zsh_space_in_name_refuted. Qed.
 Print Assumptions C16_zsh_space_in_name_refuted.
-(** the same for the command tree AS THE USER WROTE IT ([Complete/ZshBuildProofs.v]): [binless c] = no subcommand carries an
-    explicit bin name (no spec format sets one).  [Command::build] then yields a [linked] tree with the bin name ... *)
+(** the same for the command tree AS THE USER WROTE IT ([Complete/ZshBuildProofs.v]): [BuildLinked.nb c] = no subcommand carries
+    an explicit bin name (no spec format sets one).  [Command::build] then yields a [linked] tree with the bin name
+    ([C16_build_linked]; the second proof of that statement, [C16_zsh_build_linked], is gone), so [generate]
+    (= [set_bin_name] + [build] + generator) writes a script for EVERY such tree, every assignment of texts and every
+    non-empty bin name: [build] does not run out of fuel, no [expect] fires, the recursion ends *)
 From ClapModel Require Import Complete.ZshBuildProofs.
-Theorem C16_zsh_build_linked : forall c bin b,
-  binless c = true -> bin <> [] -> build (set_bin_name c bin) = Some b -> c_bin b = Some bin /\ linked b.
-Proof. exact build_linked. Qed.
-Print Assumptions C16_zsh_build_linked.
-
-(** ... so [generate] (= [set_bin_name] + [build] + generator) writes a script for EVERY such tree, every assignment of
-    texts and every non-empty bin name: [build] does not run out of fuel, no [expect] fires, the recursion ends *)
 Theorem C16_zsh_generate_total : forall bl c d bin,
-  binless c = true -> bin <> [] -> exists s, generate_zsh bl c d bin = Some s.
+  BuildLinked.nb c = true -> bin <> [] -> exists s, generate_zsh bl c d bin = Some s.
 Proof. exact generate_zsh_total. Qed.
 Print Assumptions C16_zsh_generate_total.
 
@@ -1007,3 +1003,486 @@ Theorem C16_zsh_conflicts_list : forall bl c a g,
 Proof. exact conflicts_list. Qed.
 Print Assumptions C16_zsh_conflicts_list.
 (* ---- end zsh generator model ---- *)
+
+(* ---- Command::build and the tree the user wrote (round 3) ---- *)
+(** [Complete/BuildSkeleton.v].  [erase] keeps names, aliases (with visibility) and shape of a tree.  The names of the BUILT tree
+    are a structural function [bskel] of the tree the user wrote -- the fuelled recursion of [_build_recursive] disappears:
+    the same names and aliases, plus, below every command that has subcommands and for which DisableHelpSubcommand is not in
+    force (on the command, globally on it, or globally on an ancestor: the flag [g]), the generated [help] subcommand whose
+    subtree repeats the NAMES of the siblings ([hcopy]: no aliases) followed by [help] *)
+From ClapModel Require Complete.BuildSkeleton.
+Theorem C16_build_skeleton : forall c bin b,
+  build (set_bin_name c bin) = Some b -> BuildSkeleton.erase b = BuildSkeleton.bskel false c.
+Proof. exact BuildSkeleton.generate_skeleton. Qed.
+Print Assumptions C16_build_skeleton.
+
+Theorem C16_build_skeleton_shape : forall g c,
+  BuildSkeleton.bskel g c =
+  mkCmd (c_name c) (c_aliases c) []
+    (map (BuildSkeleton.bskel (g || s_dhs (c_gset c))) (c_subs c)
+     ++ (if g || s_dhs (c_set c) || s_dhs (c_gset c) || is_nil (c_subs c) then []
+         else [mkCmd BuildSkeleton.help_name [] []
+                 (map BuildSkeleton.hcopy (c_subs c) ++ [mkCmd BuildSkeleton.help_name [] [] [] None false false sets0 sets0])
+                 None false false sets0 sets0]))
+    None false false sets0 sets0.
+Proof. exact BuildSkeleton.bskel_unfold. Qed.
+Print Assumptions C16_build_skeleton_shape.
+
+(** so [build] keeps sibling names and aliases pairwise distinct (clap's own configuration check on the user's tree) when no
+    subcommand is named or aliased [help] where clap generates one ([help_free]: a boolean, structural in the user's tree) ... *)
+Theorem C16_build_siblings_ok : forall c bin b,
+  build (set_bin_name c bin) = Some b -> siblings_ok c -> BuildSkeleton.help_free false c = true -> siblings_ok b.
+Proof. exact BuildSkeleton.build_siblings_ok. Qed.
+Print Assumptions C16_build_siblings_ok.
+
+(** ... and every class of subcommand names that contains [help] ([dd_safe] of the bash theorems, "no blank" of zsh) *)
+Theorem C16_build_names : forall Q c bin b,
+  Q BuildSkeleton.help_name = true -> build (set_bin_name c bin) = Some b ->
+  (forall n, desc c n -> Q (c_name n) = true) -> (forall n, desc b n -> Q (c_name n) = true).
+Proof. exact BuildSkeleton.build_names. Qed.
+Print Assumptions C16_build_names.
+
+(** [build] only ADDS: every command the user wrote is in the built tree under the same name and aliases, with all its
+    arguments (the same records) and all its subcommands ([extends], an inductive relation) ... *)
+Theorem C16_build_extends : forall c bin b, build (set_bin_name c bin) = Some b -> BuildSkeleton.extends c b.
+Proof. exact BuildSkeleton.generate_extends. Qed.
+Print Assumptions C16_build_extends.
+
+(** ... so every path of names or visible aliases of the USER's tree is a path of the built tree, to the built image of the
+    same command, which has every argument and, under the same words, every subcommand of the user's command *)
+Theorem C16_user_paths_are_built_paths : forall c ws ns n,
+  reach c ws ns n -> forall b, BuildSkeleton.extends c b -> exists n', reach b ws ns n' /\ BuildSkeleton.extends n n'.
+Proof. exact BuildSkeleton.reach_extends. Qed.
+Print Assumptions C16_user_paths_are_built_paths.
+
+Theorem C16_extends_node : forall n n', BuildSkeleton.extends n n' ->
+  (forall a, In a (c_args n) -> In a (c_args n')) /\
+  (forall sc w, In sc (c_subs n) -> In w (get_name_and_visible_aliases sc) ->
+     exists sb, In sb (c_subs n') /\ In w (get_name_and_visible_aliases sb) /\ BuildSkeleton.extends sc sb).
+Proof. exact BuildSkeleton.extends_node. Qed.
+Print Assumptions C16_extends_node.
+
+(** zsh: the class [zsh_ok] of the exact-lookup, dispatch and coverage theorems holds for the tree [generate] builds from a user
+    tree with distinct sibling names and aliases, no blank in a subcommand name, no explicit bin names, no subcommand called
+    [help] where clap generates one -- those theorems speak about the file [generate_zsh] writes *)
+Theorem C16_zsh_build_ok : forall c bin b,
+  BuildLinked.nb c = true -> bin <> [] -> nospace c -> siblings_ok c -> BuildSkeleton.help_free false c = true ->
+  build (set_bin_name c bin) = Some b -> zsh_ok b bin.
+Proof. exact build_zsh_ok. Qed.
+Print Assumptions C16_zsh_build_ok.
+
+Theorem C16_zsh_generate_ok : forall bl c d bin,
+  BuildLinked.nb c = true -> bin <> [] -> nospace c -> siblings_ok c -> BuildSkeleton.help_free false c = true ->
+  exists b s, build (set_bin_name c bin) = Some b /\ zsh_ok b bin /\
+              generate_zsh bl c d bin = Some s /\ zsh_script bl b (dbuild (set_bin_name c bin) d) = Some s.
+Proof. exact generate_zsh_ok. Qed.
+Print Assumptions C16_zsh_generate_ok.
+
+(** satisfiable: the tree of [C16_zsh_ok_nonvacuous] as a user writes it (no bin names); the built tree has the path [a x]
+    through the alias, with the user's option, and the generated [help add x] *)
+Theorem C16_zsh_generate_ok_nonvacuous :
+  BuildLinked.nb zx_user = true /\ nospace zx_user /\ siblings_ok zx_user /\ BuildSkeleton.help_free false zx_user = true /\
+  exists b n m, build (set_bin_name zx_user [112]) = Some b /\
+    reach b [[97]; [120]] [[97; 100; 100]; [120]] n /\ In zx_opt (c_args n) /\
+    reach b [[104; 101; 108; 112]; [97; 100; 100]; [120]] [[104; 101; 108; 112]; [97; 100; 100]; [120]] m.
+Proof. exact generate_zsh_ok_example. Qed.
+Print Assumptions C16_zsh_generate_ok_nonvacuous.
+
+(* ---- bash: the value branch, and the table for the tree the user wrote (round 3) ---- *)
+(** [Complete/BashValues.v].  The [case "${prev}"] branch of the completion function.  [opt_keys o] = the labels of the arms
+    of option [o]: [--]long and visible aliases, [-]short and visible short aliases.  After the words of a path to [n], a
+    spelling [key] of an option [o] of [n] (unique among the options of [n]: clap's own check) and a partial word that does not
+    start with [-], the function replies what the arm of [o] says ([vals_kind o]; [None] = the reply comes from the file system) *)
+From ClapModel Require Complete.BashValues Complete.BashUser.
+Theorem C16_bash_value_branch : forall c root_bin t w0 ws ns n o key cur,
+  c_bin c = Some root_bin -> linked c -> mangle_safe c root_bin -> bash_table c = Some t ->
+  reach c ws ns n -> w0 <> [] -> Forall (fun w => w <> []) ws ->
+  In o (get_opts n) -> In key (BashValues.opt_keys o) ->
+  (forall o', In o' (get_opts n) -> In key (BashValues.opt_keys o') -> o' = o) ->
+  (forall sc, In sc (c_subs n) -> ~ In key (sc_words sc)) ->
+  (forall sc, In sc (c_subs n) -> ~ In cur (sc_words sc)) ->
+  starts_with cur [45] = false ->
+  bash_complete t (w0 :: ws ++ [key; cur]) =
+  match vals_kind o with
+  | VWords l => Some (compgen_W l cur) | VCur => Some [cur] | VNothing => Some [] | VFiles => None
+  end.
+Proof. exact BashValues.bash_value_branch. Qed.
+Print Assumptions C16_bash_value_branch.
+
+(** an option with possible values: the reply is EXACTLY the non-hidden possible values that start with the partial word,
+    whatever the value hint -- [Other], [DirPath], ... -- except [FilePath] (refuted below).  The statement the seeded change
+    "an explicit ValueHint::Other / DirPath shadows the possible values" violates *)
+Theorem C16_bash_value_offers_possible_values : forall c root_bin t w0 ws ns n o key cur vs,
+  c_bin c = Some root_bin -> linked c -> mangle_safe c root_bin -> bash_table c = Some t ->
+  reach c ws ns n -> w0 <> [] -> Forall (fun w => w <> []) ws ->
+  In o (get_opts n) -> In key (BashValues.opt_keys o) ->
+  (forall o', In o' (get_opts n) -> In key (BashValues.opt_keys o') -> o' = o) ->
+  (forall sc, In sc (c_subs n) -> ~ In key (sc_words sc)) ->
+  (forall sc, In sc (c_subs n) -> ~ In cur (sc_words sc)) ->
+  starts_with cur [45] = false ->
+  possible_values o = Some vs -> a_get_hint o <> HFilePath ->
+  exists reply, bash_complete t (w0 :: ws ++ [key; cur]) = Some reply /\
+    forall w, In w reply <-> (exists pv, In pv vs /\ pv_hide pv = false /\ w = pv_name pv) /\ exists tl, w = cur ++ tl.
+Proof. exact BashValues.bash_value_offers_possible_values. Qed.
+Print Assumptions C16_bash_value_offers_possible_values.
+
+(** the TEXT of the arm ([vals_for]): [$(compgen -W "v1 v2 .." -- "${cur}")] over the non-hidden values, whatever the hint;
+    without possible values the hint decides *)
+Theorem C16_bash_value_arm_text : forall o vs,
+  possible_values o = Some vs ->
+  vals_for o = [36; 40; 99; 111; 109; 112; 103; 101; 110; 32; 45; 87; 32; 34]
+               ++ intercalate [32] (map pv_name (filter (fun pv => negb (pv_hide pv)) vs))
+               ++ [34; 32; 45; 45; 32; 34; 36; 123; 99; 117; 114; 125; 34; 41].
+Proof. exact BashValues.bash_value_arm_text. Qed.
+Print Assumptions C16_bash_value_arm_text.
+
+Theorem C16_bash_value_hint : forall o,
+  possible_values o = None ->
+  vals_kind o = match a_get_hint o with HDirPath => VNothing | HOther => VCur | _ => VFiles end.
+Proof. exact BashValues.bash_value_hint. Qed.
+Print Assumptions C16_bash_value_hint.
+
+(** satisfiable: [--color] / [-c] / visible alias [--colour], values always, never, secret (hidden), explicit [ValueHint::Other]:
+    every hypothesis holds; [p --colour a] is answered with [always], [p -c ""] with [always never] *)
+Theorem C16_bash_value_nonvacuous :
+  exists t, c_bin (BashValues.bv_root HOther) = Some [112] /\ linked (BashValues.bv_root HOther) /\
+    mangle_safe (BashValues.bv_root HOther) [112] /\
+    bash_table (BashValues.bv_root HOther) = Some t /\ reach (BashValues.bv_root HOther) [] [] (BashValues.bv_root HOther) /\
+    In (BashValues.bv_opt HOther) (get_opts (BashValues.bv_root HOther)) /\
+    In [45; 45; 99; 111; 108; 111; 117; 114] (BashValues.opt_keys (BashValues.bv_opt HOther)) /\
+    (forall o', In o' (get_opts (BashValues.bv_root HOther)) ->
+                In [45; 45; 99; 111; 108; 111; 117; 114] (BashValues.opt_keys o') -> o' = BashValues.bv_opt HOther) /\
+    possible_values (BashValues.bv_opt HOther) =
+      Some [mkPv [97; 108; 119; 97; 121; 115] false; mkPv [110; 101; 118; 101; 114] false; mkPv [115; 101; 99; 114; 101; 116] true] /\
+    a_get_hint (BashValues.bv_opt HOther) = HOther /\
+    bash_complete t [[112]; [45; 45; 99; 111; 108; 111; 117; 114]; [97]] = Some [[97; 108; 119; 97; 121; 115]] /\
+    bash_complete t [[112]; [45; 99]; []] = Some [[97; 108; 119; 97; 121; 115]; [110; 101; 118; 101; 114]].
+Proof. exact BashValues.bash_value_hyps. Qed.
+Print Assumptions C16_bash_value_nonvacuous.
+
+(** class boundary (observation O1 of the notes, corpus [bash.regressions]; validated under the installed bash): with
+    [ValueHint::FilePath] the arm runs under [IFS=$'\n'] and [compgen -W "always never"] yields ONE word, not a possible value *)
+Theorem C16_bash_value_filepath_refuted :
+  exists t vs, bash_table (BashValues.bv_root HFilePath) = Some t /\ possible_values (BashValues.bv_opt HFilePath) = Some vs /\
+    bash_complete t [[112]; [45; 45; 99; 111; 108; 111; 114]; []] =
+      Some [[97; 108; 119; 97; 121; 115; 32; 110; 101; 118; 101; 114]] /\
+    ~ In [97; 108; 119; 97; 121; 115; 32; 110; 101; 118; 101; 114] (map pv_name vs).
+Proof. exact BashValues.bash_value_filepath_refuted. Qed.
+Print Assumptions C16_bash_value_filepath_refuted.
+
+(** [Complete/BashUser.v].  [C16_bash_table] for [generate] on a user tree: [linked] is no hypothesis any more ([build]
+    establishes it for a tree without explicit bin names: [C16_build_linked]), and the script [generate_bash] writes is the
+    rendering of the table *)
+Theorem C16_bash_generate_table : forall c bin b,
+  BuildLinked.nb c = true -> build (set_bin_name c bin) = Some b -> mangle_safe b bin ->
+  exists t, bash_table b = Some t /\ generate_bash c bin = Some (render t) /\
+    forall w0 ws ns n, reach b ws ns n ->
+      fold_left (step (k_label (t_root t)) w0 (t_trans t)) (w0 :: ws) [] = fn_of (mangle bin) ns /\
+      exists k, lookup_case t (fn_of (mangle bin) ns) = Some k /\
+                opts_tokens n = Some (k_opts k) /\ k_details k = option_details n /\
+                k_level k = N.of_nat (S (List.length ws)).
+Proof. exact BashUser.bash_generate_table. Qed.
+Print Assumptions C16_bash_generate_table.
+
+(** [mangle_safe] of the built tree from the user's tree: names and sibling distinctness are carried over; what remains is the
+    injectivity of the mangled function names ... *)
+Theorem C16_build_mangle_safe : forall c bin b,
+  build (set_bin_name c bin) = Some b -> dd_safe bin = true -> bin <> [] ->
+  siblings_ok c -> BuildSkeleton.help_free false c = true -> (forall n, desc c n -> dd_safe (c_name n) = true) ->
+  (forall f n1 n2, node_at (mangle bin) b f n1 -> node_at (mangle bin) b f n2 -> n1 = n2) ->
+  mangle_safe b bin.
+Proof. exact BashUser.build_mangle_safe. Qed.
+Print Assumptions C16_build_mangle_safe.
+
+(** ... which holds when no subcommand name contains a hyphen ([bash_name] = [dd_safe] and no [-]: [mangle] is then the identity
+    on the names and the [__]-joined path splits back) ... *)
+Theorem C16_bash_names_determine_node : forall c r,
+  siblings_ok c -> (forall n, desc c n -> BashUser.bash_name (c_name n) = true) ->
+  forall f n1 n2, node_at r c f n1 -> node_at r c f n2 -> n1 = n2.
+Proof. exact BashUser.ms_inj_plain. Qed.
+Print Assumptions C16_bash_names_determine_node.
+
+(** ... so for such trees every hypothesis is on the tree the user wrote *)
+Theorem C16_bash_generate_table_plain : forall c bin,
+  BuildLinked.nb c = true -> dd_safe bin = true -> bin <> [] -> siblings_ok c -> BuildSkeleton.help_free false c = true ->
+  (forall n, desc c n -> BashUser.bash_name (c_name n) = true) ->
+  exists b t, build (set_bin_name c bin) = Some b /\ bash_table b = Some t /\ generate_bash c bin = Some (render t) /\
+    forall w0 ws ns n, reach b ws ns n ->
+      fold_left (step (k_label (t_root t)) w0 (t_trans t)) (w0 :: ws) [] = fn_of (mangle bin) ns /\
+      exists k, lookup_case t (fn_of (mangle bin) ns) = Some k /\
+                opts_tokens n = Some (k_opts k) /\ k_details k = option_details n /\
+                k_level k = N.of_nat (S (List.length ws)).
+Proof. exact BashUser.bash_generate_table_plain. Qed.
+Print Assumptions C16_bash_generate_table_plain.
+
+Theorem C16_bash_generate_table_plain_nonvacuous :
+  BuildLinked.nb BashUser.bu_root = true /\ dd_safe [109; 121; 45; 112; 114; 111; 103] = true /\
+  [109; 121; 45; 112; 114; 111; 103] <> @nil N /\ siblings_ok BashUser.bu_root /\
+  BuildSkeleton.help_free false BashUser.bu_root = true /\
+  (forall n, desc BashUser.bu_root n -> BashUser.bash_name (c_name n) = true) /\
+  exists b n, build (set_bin_name BashUser.bu_root [109; 121; 45; 112; 114; 111; 103]) = Some b /\
+    reach b [[104; 101; 108; 112]; [97; 100; 100]; [120]] [[104; 101; 108; 112]; [97; 100; 100]; [120]] n.
+Proof. exact BashUser.bash_generate_table_plain_hyps. Qed.
+Print Assumptions C16_bash_generate_table_plain_nonvacuous.
+
+(* ---- elvish / PowerShell / zsh: the remaining classes from the tree the user wrote (round 3) ---- *)
+(** [Complete/TableUser.v].  elvish and PowerShell: the lookup statement ([C16_<sh>_lookup]: the block keyed by a path is in the
+    script, every block with that key carries the node's entries, a first-match lookup returns it) for [generate_<sh>] on a user
+    tree with distinct sibling names and aliases, no [;] in a name or in the bin name, no subcommand called [help] where clap
+    generates one: [build] keeps the class ([C16_build_siblings_ok]; [cmd_plain no_semi] by [BuildTexts.cp_build]) *)
+From ClapModel Require Complete.TableUser.
+Theorem C16_elvish_generate_lookup : forall c t bin,
+  bin <> [] -> siblings_ok c -> BuildSkeleton.help_free false c = true ->
+  PathTableLex.cmd_plain PathTableBlocks.no_semi c = true -> PathTableLex.plainl PathTableBlocks.no_semi bin = true ->
+  exists b tb,
+    build (set_bin_name c bin) = Some b /\ TextTree.tbuild (set_bin_name c bin) t = Some tb /\
+    ElvishModel.generate_elvish c t bin =
+      Some (ElvishModel.render bin
+              (List.concat (map (PathTableBlocks.render_block ElvishProofs.el_fmt) (PathTableBlocks.blocks ElvishProofs.el_fmt b tb [])))) /\
+    forall ws ns n, reach b ws ns n ->
+      exists tn,
+        In (PathTable.path_key bin ws, PathTable.entries ElvishProofs.el_fmt n tn) (PathTableBlocks.blocks ElvishProofs.el_fmt b tb []) /\
+        (forall e, In (PathTable.path_key bin ws, e) (PathTableBlocks.blocks ElvishProofs.el_fmt b tb []) ->
+                   e = PathTable.entries ElvishProofs.el_fmt n tn) /\
+        PathTableBlocks.lookup_block (PathTableBlocks.blocks ElvishProofs.el_fmt b tb []) (PathTable.path_key bin ws) =
+          Some (PathTable.path_key bin ws, PathTable.entries ElvishProofs.el_fmt n tn).
+Proof. exact TableUser.elvish_generate_lookup. Qed.
+Print Assumptions C16_elvish_generate_lookup.
+
+Theorem C16_powershell_generate_lookup : forall up c t bin,
+  bin <> [] -> siblings_ok c -> BuildSkeleton.help_free false c = true ->
+  PathTableLex.cmd_plain PathTableBlocks.no_semi c = true -> PathTableLex.plainl PathTableBlocks.no_semi bin = true ->
+  exists b tb,
+    build (set_bin_name c bin) = Some b /\ TextTree.tbuild (set_bin_name c bin) t = Some tb /\
+    PowershellModel.generate_powershell up c t bin =
+      Some (PowershellModel.render bin
+              (List.concat (map (PathTableBlocks.render_block (PowershellProofs.ps_fmt up))
+                                (PathTableBlocks.blocks (PowershellProofs.ps_fmt up) b tb [])))) /\
+    forall ws ns n, reach b ws ns n ->
+      exists tn,
+        In (PathTable.path_key bin ws, PathTable.entries (PowershellProofs.ps_fmt up) n tn)
+           (PathTableBlocks.blocks (PowershellProofs.ps_fmt up) b tb []) /\
+        (forall e, In (PathTable.path_key bin ws, e) (PathTableBlocks.blocks (PowershellProofs.ps_fmt up) b tb []) ->
+                   e = PathTable.entries (PowershellProofs.ps_fmt up) n tn) /\
+        PathTableBlocks.lookup_block (PathTableBlocks.blocks (PowershellProofs.ps_fmt up) b tb []) (PathTable.path_key bin ws) =
+          Some (PathTable.path_key bin ws, PathTable.entries (PowershellProofs.ps_fmt up) n tn).
+Proof. exact TableUser.powershell_generate_lookup. Qed.
+Print Assumptions C16_powershell_generate_lookup.
+
+Theorem C16_table_generate_lookup_nonvacuous :
+  [112%N] <> @nil N /\ siblings_ok TableUser.tu_root /\ BuildSkeleton.help_free false TableUser.tu_root = true /\
+  PathTableLex.cmd_plain PathTableBlocks.no_semi TableUser.tu_root = true /\
+  PathTableLex.plainl PathTableBlocks.no_semi [112%N] = true /\ c_subs TableUser.tu_root <> [].
+Proof. exact TableUser.table_user_hyps. Qed.
+Print Assumptions C16_table_generate_lookup_nonvacuous.
+
+(** [Complete/ZshBuildTame.v].  zsh: [build] keeps a tree in the class [ztame_cmd] of the whole-script structure theorems
+    ([C17_zsh_script_*]), so the C17 statement holds for the file [generate_zsh] writes for the user's tree: any two
+    assignments of description texts with the same presence shape give files with the same token skeleton and final state *)
+From ClapModel Require Complete.ZshLexProofs Complete.ZshBuildTame Complete.FishLexProofs Escape.ShellLex.
+Theorem C16_zsh_build_keeps_tame : forall c bin b,
+  build (set_bin_name c bin) = Some b -> ZshLexProofs.ztame_cmd c = true -> FishLexProofs.tame bin = true ->
+  ZshLexProofs.ztame_cmd b = true.
+Proof. exact ZshBuildTame.build_ztame. Qed.
+Print Assumptions C16_zsh_build_keeps_tame.
+
+Theorem C16_zsh_generate_same_skeleton : forall bl c d1 d2 bin s1,
+  ZshLexProofs.ztame_cmd c = true -> FishLexProofs.tame bin = true ->
+  FishLexProofs.erase_desc d1 = FishLexProofs.erase_desc d2 -> generate_zsh bl c d1 bin = Some s1 ->
+  exists s2, generate_zsh bl c d2 bin = Some s2 /\
+    ShellLex.skeleton (ShellLex.events ShellLex.sh_step ShellLex.ZB s1) =
+    ShellLex.skeleton (ShellLex.events ShellLex.sh_step ShellLex.ZB s2) /\
+    ShellLex.final ShellLex.sh_step ShellLex.ZB s1 = ShellLex.final ShellLex.sh_step ShellLex.ZB s2.
+Proof. exact ZshBuildTame.generate_zsh_text_invariance. Qed.
+Print Assumptions C16_zsh_generate_same_skeleton.
+
+Theorem C16_zsh_generate_same_skeleton_nonvacuous :
+  ZshLexProofs.ztame_cmd zx_user = true /\ FishLexProofs.tame [112%N] = true.
+Proof. exact ZshBuildTame.generate_zsh_tame_example. Qed.
+Print Assumptions C16_zsh_generate_same_skeleton_nonvacuous.
+
+(* ---- all six generators, one statement, on the tree the user wrote (round 3) ---- *)
+(** [Complete/CrossShell.v].  A user tree [c] without explicit bin names on subcommands, [generate] called with [bin], the built
+    tree in the class of the bash theorems ([mangle_safe], which contains what the zsh lookup needs).  For EVERY path [ws] of names
+    or visible aliases of the USER's tree to a command [n], every option or flag [a] the user gave [n], and EVERY spelling of [a]
+    ([spelled_short]: its short or a visible short alias; [spelled_long]: its long or a visible alias) in the class
+    [arg_has_primary a] (an alias comes with its primary spelling; outside it: finding alias-without-primary): each of the six
+    scripts exists and mentions THAT spelling where its shell looks it up for THAT path -- the same set in all six:
+    bash: the [case] arm the word loop ends in has [-s] / [--l] in its [opts];  zsh: the [_arguments] block after the arm label of
+    the last word (root: the first block) has the spec line (option form if the argument takes a value, flag form otherwise);
+    fish (paths of at most two words): a [complete] line starting with the path's condition has [ -s s] / [ -l l];
+    PowerShell / elvish: the block keyed [bin;w1;..;wk] has the entry;  nushell: the block declared
+    [export extern "bin n1 .. nk"] has a line of the argument starting with the spelling.
+    Corollary of the six coverage theorems, [C16_user_paths_are_built_paths] and [C16_build_linked]. *)
+From ClapModel Require Complete.CrossShell.
+Theorem C16_six_generators_mention_the_same_spellings : forall up bl c t d bin b ws ns n a,
+  BuildLinked.nb c = true -> build (set_bin_name c bin) = Some b -> mangle_safe b bin ->
+  reach c ws ns n -> In a (c_args n) -> a_is_positional a = false -> CrossShell.arg_has_primary a ->
+  (forall s, CrossShell.spelled_short a s ->
+     CrossShell.bash_mentions c bin ns ([45] ++ s) /\
+     CrossShell.zsh_mentions bl c d bin ws a (CrossShell.zsh_short_line bl a s) /\
+     ((List.length ws <= 2)%nat -> CrossShell.fish_mentions_word c d bin ws (short_word s)) /\
+     CrossShell.powershell_mentions up c t bin ws (PowershellProofs.ps_short up s) /\
+     CrossShell.elvish_mentions c t bin ws (ElvishProofs.el_short s) /\
+     CrossShell.nushell_mentions c d bin ns a (NushellProofs.mentions_short s)) /\
+  (forall l, CrossShell.spelled_long a l ->
+     CrossShell.bash_mentions c bin ns ([45; 45] ++ l) /\
+     CrossShell.zsh_mentions bl c d bin ws a (CrossShell.zsh_long_line bl a l) /\
+     ((List.length ws <= 2)%nat -> CrossShell.fish_mentions_word c d bin ws (long_word l)) /\
+     CrossShell.powershell_mentions up c t bin ws (PowershellProofs.ps_long l) /\
+     CrossShell.elvish_mentions c t bin ws (ElvishProofs.el_long l) /\
+     CrossShell.nushell_mentions c d bin ns a (NushellProofs.mentions_long l)).
+Proof. exact CrossShell.six_generators_mention_spellings_conj. Qed.
+Print Assumptions C16_six_generators_mention_the_same_spellings.
+
+(** what the six predicates say (their definitions, as equivalences, so that the statement above can be read from this file) *)
+Theorem C16_six_mentions_meaning : forall up bl c t d bin ws ns a w word entry ok line,
+  (CrossShell.bash_mentions c bin ns w <->
+     exists b tb k, build (set_bin_name c bin) = Some b /\ bash_table b = Some tb /\ generate_bash c bin = Some (render tb) /\
+                    lookup_case tb (fn_of (mangle bin) ns) = Some k /\ In w (k_opts k)) /\
+  (CrossShell.zsh_mentions bl c d bin ws a line <->
+     exists s n' nd g ad, generate_zsh bl c d bin = Some s /\
+       sublist (zrender ((if is_nil ws then [] else [Zx ([40] ++ last ws [] ++ [41])] ++ znl) ++ args_block bl n' nd g)) s /\
+       sublist (line n' g (a, ad)) (args_block bl n' nd g)) /\
+  (CrossShell.fish_mentions_word c d bin ws word <->
+     exists b n' lines basic fline,
+       build (set_bin_name c bin) = Some b /\ generate_fish c d bin = fish_script b (dbuild (set_bin_name c bin) d) /\
+       fish_lines b (dbuild (set_bin_name c bin) d) = Some lines /\
+       basic_template bin (fish_needs bin b) (fish_using bin b) ws n' = Some basic /\
+       In fline lines /\ hd_error fline = Some (Fx basic) /\ In word fline) /\
+  (CrossShell.powershell_mentions up c t bin ws entry <->
+     exists script es tip, PowershellModel.generate_powershell up c t bin = Some script /\
+       PathTable.infix (PowershellModel.case_block (PathTable.path_key bin ws) es) script /\ PathTable.infix (entry tip) es) /\
+  (CrossShell.elvish_mentions c t bin ws entry <->
+     exists script es tip, ElvishModel.generate_elvish c t bin = Some script /\
+       PathTable.infix (ElvishModel.case_block (PathTable.path_key bin ws) es) script /\ PathTable.infix (entry tip) es) /\
+  (CrossShell.nushell_mentions c d bin ns a ok <->
+     exists s blk pre post st,
+       NushellModel.generate_nushell c d bin = Some s /\ s = NushellProofs.nrender (pre ++ blk ++ post) /\
+       In (NushellProofs.NFx (NushellProofs.extern_line (negb (is_nil ns)) (bin ++ join_with [32%N] ns))) blk /\
+       ok st /\ In (NushellProofs.NFx (st ++ NushellProofs.type_suffix a (bin ++ join_with [32%N] ns))) blk).
+Proof. exact CrossShell.six_mentions_meaning. Qed.
+Print Assumptions C16_six_mentions_meaning.
+
+(** for subcommand names without a hyphen every hypothesis is on the tree the user wrote *)
+Theorem C16_six_generators_mention_the_same_spellings_plain : forall up bl c t d bin ws ns n a,
+  BuildLinked.nb c = true -> dd_safe bin = true -> bin <> [] -> siblings_ok c -> BuildSkeleton.help_free false c = true ->
+  (forall m, desc c m -> BashUser.bash_name (c_name m) = true) ->
+  reach c ws ns n -> In a (c_args n) -> a_is_positional a = false -> CrossShell.arg_has_primary a ->
+  (forall s, CrossShell.spelled_short a s ->
+     CrossShell.bash_mentions c bin ns ([45] ++ s) /\
+     CrossShell.zsh_mentions bl c d bin ws a (CrossShell.zsh_short_line bl a s) /\
+     ((List.length ws <= 2)%nat -> CrossShell.fish_mentions_word c d bin ws (short_word s)) /\
+     CrossShell.powershell_mentions up c t bin ws (PowershellProofs.ps_short up s) /\
+     CrossShell.elvish_mentions c t bin ws (ElvishProofs.el_short s) /\
+     CrossShell.nushell_mentions c d bin ns a (NushellProofs.mentions_short s)) /\
+  (forall l, CrossShell.spelled_long a l ->
+     CrossShell.bash_mentions c bin ns ([45; 45] ++ l) /\
+     CrossShell.zsh_mentions bl c d bin ws a (CrossShell.zsh_long_line bl a l) /\
+     ((List.length ws <= 2)%nat -> CrossShell.fish_mentions_word c d bin ws (long_word l)) /\
+     CrossShell.powershell_mentions up c t bin ws (PowershellProofs.ps_long l) /\
+     CrossShell.elvish_mentions c t bin ws (ElvishProofs.el_long l) /\
+     CrossShell.nushell_mentions c d bin ns a (NushellProofs.mentions_long l)).
+Proof. exact CrossShell.six_generators_mention_spellings_plain_conj. Qed.
+Print Assumptions C16_six_generators_mention_the_same_spellings_plain.
+
+Theorem C16_six_generators_nonvacuous :
+  exists a, reach BashUser.bu_root [[97]] [[97; 100; 100]] BashUser.bu_add /\ In a (c_args BashUser.bu_add) /\
+    a_is_positional a = false /\ CrossShell.arg_has_primary a /\ CrossShell.spelled_short a [99] /\
+    CrossShell.spelled_long a [99; 111; 108; 111; 114].
+Proof. exact CrossShell.six_generators_hyps. Qed.
+Print Assumptions C16_six_generators_nonvacuous.
+
+(** determinism of all six as one statement: functions of (command, texts, bin name); on the implementation: three generations *)
+Theorem C16_six_generators_deterministic : forall up bl c1 c2 t1 t2 d1 d2 b1 b2,
+  c1 = c2 -> t1 = t2 -> d1 = d2 -> b1 = b2 ->
+  generate_bash c1 b1 = generate_bash c2 b2 /\
+  generate_zsh bl c1 d1 b1 = generate_zsh bl c2 d2 b2 /\
+  generate_fish c1 d1 b1 = generate_fish c2 d2 b2 /\
+  PowershellModel.generate_powershell up c1 t1 b1 = PowershellModel.generate_powershell up c2 t2 b2 /\
+  ElvishModel.generate_elvish c1 t1 b1 = ElvishModel.generate_elvish c2 t2 b2 /\
+  NushellModel.generate_nushell c1 d1 b1 = NushellModel.generate_nushell c2 d2 b2.
+Proof. exact CrossShell.six_generators_deterministic. Qed.
+Print Assumptions C16_six_generators_deterministic.
+
+(* ---- zsh: multi-valued positionals, exactly (round 3) ---- *)
+(** [Complete/ZshPositionals.v].  [write_positionals_of] = the lines of the positionals [pos_kept] keeps, each with the cardinality
+    prefix [pos_card]: ["*:"] for a multi-valued positional of a command without subcommands (the catch-all), [":"] for an
+    optional one, nothing for a required one ... *)
+From ClapModel Require Complete.ZshPositionals.
+Theorem C16_zsh_positionals_exact : forall c d,
+  write_positionals_of c d =
+  zjoin znl (map (fun p => positional_line (ZshPositionals.pos_card (has_subcommands c) p) p)
+                 (ZshPositionals.pos_kept (has_subcommands c) false (filter is_pos (zipd ad0 (c_args c) (cd_args d))))).
+Proof. exact ZshPositionals.write_positionals_exact. Qed.
+Print Assumptions C16_zsh_positionals_exact.
+
+(** ... where [pos_kept] is: with subcommands, all of them; without, everything up to and including the FIRST multi-valued
+    positional, then only the single-valued ones (a second catch-all is never written: the comment in zsh.rs) ... *)
+Theorem C16_zsh_positionals_kept :
+  (forall l, ZshPositionals.pos_kept true false l = l) /\
+  (forall l1 p l2, Forall (fun q => ZshPositionals.multi q = false) l1 -> ZshPositionals.multi p = true ->
+     ZshPositionals.pos_kept false false (l1 ++ p :: l2) = l1 ++ p :: filter (fun q => negb (ZshPositionals.multi q)) l2) /\
+  (forall hs l ce, Forall (fun q => ZshPositionals.multi q = false) l -> ZshPositionals.pos_kept hs ce l = l).
+Proof.
+  exact (conj ZshPositionals.pos_kept_with_subcommands
+           (conj ZshPositionals.pos_kept_first_catch_all ZshPositionals.pos_kept_no_multi)).
+Qed.
+Print Assumptions C16_zsh_positionals_kept.
+
+(** ... and in the class clap's own configuration check accepts (at most one multi-valued positional when no argument carries
+    [last]; two of them: the harness answers INVALID) EVERY positional has its line *)
+Theorem C16_zsh_positionals_valid : forall c d,
+  (List.length (filter ZshPositionals.multi (filter is_pos (zipd ad0 (c_args c) (cd_args d)))) <= 1)%nat ->
+  write_positionals_of c d =
+  zjoin znl (map (fun p => positional_line (ZshPositionals.pos_card (has_subcommands c) p) p)
+                 (filter is_pos (zipd ad0 (c_args c) (cd_args d)))).
+Proof. exact ZshPositionals.write_positionals_valid. Qed.
+Print Assumptions C16_zsh_positionals_valid.
+
+Theorem C16_zsh_positionals_example :
+  map (fun p => a_id (fst p))
+      (ZshPositionals.pos_kept false false
+         [(ZshPositionals.zp_arg [102; 105; 108; 101; 115] 5, ad0); (ZshPositionals.zp_arg [109; 111; 114; 101] 5, ad0);
+          (ZshPositionals.zp_arg [108; 97; 115; 116] 1, ad0)])
+  = [[102; 105; 108; 101; 115]; [108; 97; 115; 116]] /\
+  ZshPositionals.pos_card false (ZshPositionals.zp_arg [102; 105; 108; 101; 115] 5, ad0) = [42; 58].
+Proof. exact ZshPositionals.pos_kept_example. Qed.
+Print Assumptions C16_zsh_positionals_example.
+
+(** the same for SUBCOMMAND words: for every path of the user's tree to [n], every subcommand [sc] the user gave [n] and every
+    name or visible alias [w] of [sc]: the bash arm of the path has [w] in its [opts]; the zsh file has the [_<bin>_commands]
+    function of the addressed command (bin name = [bin n1 .. nk]) and its list has the entry ['w:about']; fish (paths of at most
+    two words) offers [ -a "w"] on a line starting with the path's condition; the PowerShell / elvish block keyed by the path
+    has the entry of [w]; nushell declares the block [export extern "bin n1 .. nk name"] of the subcommand -- under its NAME
+    (visible aliases of subcommands are not written by nushell: the recorded finding nushell-subcommand-aliases) *)
+Theorem C16_six_generators_mention_subcommands : forall up bl c t d bin b ws ns n sc w,
+  BuildLinked.nb c = true -> build (set_bin_name c bin) = Some b -> mangle_safe b bin ->
+  reach c ws ns n -> In sc (c_subs n) -> In w (get_name_and_visible_aliases sc) ->
+  CrossShell.bash_mentions c bin ns w /\
+  CrossShell.zsh_lists_subcommand bl c d bin ns w /\
+  ((List.length ws <= 2)%nat -> CrossShell.fish_offers_subcommand c d bin ws w) /\
+  CrossShell.powershell_mentions up c t bin ws (PowershellProofs.ps_sub w) /\
+  CrossShell.elvish_mentions c t bin ws (ElvishProofs.el_sub w) /\
+  CrossShell.nushell_declares c d bin (ns ++ [c_name sc]).
+Proof. exact CrossShell.six_generators_mention_subcommands. Qed.
+Print Assumptions C16_six_generators_mention_subcommands.
+
+Theorem C16_six_subcommand_mentions_meaning : forall bl c d bin ws ns w,
+  (CrossShell.zsh_lists_subcommand bl c d bin ns w <->
+     exists s nd n' about,
+       generate_zsh bl c d bin = Some s /\ bin_or_default n' = bin ++ join_with [32%N] ns /\
+       sublist (zrender (commands_function (bin_or_default n') (subcommands_of n' nd))) s /\
+       sublist (describe_entry about w) (subcommands_of n' nd)) /\
+  (CrossShell.fish_offers_subcommand c d bin ws w <->
+     exists b n' lines basic line,
+       build (set_bin_name c bin) = Some b /\ generate_fish c d bin = fish_script b (dbuild (set_bin_name c bin) d) /\
+       fish_lines b (dbuild (set_bin_name c bin) d) = Some lines /\
+       basic_template bin (fish_needs bin b) (fish_using bin b) ws n' = Some basic /\
+       In line lines /\ hd_error line = Some (Fx (sub_template basic n')) /\ In (sub_word w) line) /\
+  (CrossShell.nushell_declares c d bin ns <->
+     exists s blk pre post,
+       NushellModel.generate_nushell c d bin = Some s /\ s = NushellProofs.nrender (pre ++ blk ++ post) /\
+       In (NushellProofs.NFx (NushellProofs.extern_line (negb (is_nil ns)) (bin ++ join_with [32%N] ns))) blk).
+Proof. exact CrossShell.subcommand_mentions_meaning. Qed.
+Print Assumptions C16_six_subcommand_mentions_meaning.
